@@ -318,8 +318,9 @@ def env_ref(c04, tk, v):
     import datetime as dt
     if isinstance(v, str) and tk in ('date', 'datetime'):
         if NUMERIC_RE.match(v):
-            x = dt.datetime.fromtimestamp(float(v), tz=dt.timezone.utc)
-            return x if tk == 'datetime' else x.date()
+            if tk == 'date':
+                return c04.local_day(float(v))      # builtin date.fromtimestamp: the local day (= UTC day in a UTC process)
+            return dt.datetime.fromtimestamp(float(v), tz=dt.timezone.utc)
         if v in EPOCH_STRS:
             raise KeyError('out-of-domain')
     return c04.ref_coerce(tk, v, 'default')
